@@ -70,6 +70,7 @@ def run(ctx: Ctx, rep: Report) -> None:
     visited(ctx, rep)
     qubit_gates(ctx, rep)
     place_conn(ctx, rep)
+    progress_reset(ctx, rep)
     g = ctx.cls('bqskit/qis/graph.py:CouplingGraph')
     hashrule.rule_hash(ctx, rep, [g])
 
@@ -783,6 +784,57 @@ def place_conn(ctx: Ctx, rep: Report) -> None:
             key='no-connectivity-test',
         )
     rep.floor(R, n, 3, 'placement passes')
+
+
+def progress_reset(ctx: Ctx, rep: Report) -> None:
+    """PROGRESS: `leading_swaps` counts the swaps inserted since the router
+    last executed a gate; when it exceeds a multiple of the width the router
+    declares a local minimum, rolls the mapping back over those swaps and
+    escapes uphill.  The list must therefore be emptied on *every* path
+    through the branch in which gates were executed (`len(execute_list) >
+    0`), whatever the configuration: if it survives, the roll-back crosses
+    gates that were already emitted and removes program gates."""
+    R = 'PROGRESS'
+    n = 0
+    for f in ctx.index.all_functions():
+        if not f.path.startswith('bqskit/passes/mapping/'):
+            continue
+        if not any(isinstance(x, ast.Name) and x.id == 'leading_swaps'
+                   for x in ast.walk(f.node)):
+            continue
+        g = ctx.cfg(f)
+        tests = [
+            t for t in g.nodes if t.kind == 'test'
+            and 'execute_list' in norm(t.stmt.test) and 'len(' in norm(
+                t.stmt.test)
+        ]
+        for t in tests:
+            n += 1
+            rep.count()
+            rep.seen(f.qualname)
+            lab = 'true' if '> 0' in norm(t.stmt.test) or '!= 0' in norm(
+                t.stmt.test) else 'false'
+            start = [b for b, l in g.succ[t.id] if l == lab]
+            resets = g.ids(lambda m: isinstance(m.stmt, ast.Assign) and (
+                m.kind == 'stmt') and norm(
+                    m.stmt.targets[0]) == 'leading_swaps' and isinstance(
+                        m.stmt.value, ast.List) and not m.stmt.value.elts)
+            heads = {x.id for x in g.nodes if x.kind in ('for', 'while')
+                     and t.id in g.in_loop_body(x)}
+            bad = g.reach(start, blocked=resets) & (heads | {g.exit})
+            rep.check(
+                not bad, R, (f.cls.name + '.' if f.cls is not None else '')
+                + f.name, f.path, t.lineno,
+                'leading_swaps is emptied on every path through the '
+                'gates-executed branch',
+                f'{f.qualname}: a path through the branch `{norm(t.stmt.test)}`'
+                ' reaches the next iteration without `leading_swaps = []`: '
+                'the swaps counted towards the local-minimum escape survive '
+                'executed gates, and the escape later rolls the mapping back '
+                'across gates already emitted (program gates are removed)',
+                key='not-reset',
+            )
+    rep.floor(R, n, 3, 'gates-executed branches of the routers')
 
 
 def swap_radix(ctx: Ctx, rep: Report) -> None:
